@@ -229,6 +229,13 @@ def reIdxSuffixFind (s : String) : List Int :=
   | some (p, _) => [(p.length : Int), (s.toList.length : Int)]
   | none => []
 
+/-- `strings.Contains(s, sub)` (= `strings.Index(s, sub) >= 0`) -/
+def stringsContains (s sub : String) : Bool := Go.stringsIndex s sub != -1
+/-- `strings.HasSuffix(s, suf)` -/
+def hasSuffix (s suf : String) : Bool := suf.toList.reverse.isPrefixOf s.toList.reverse
+/-- `x, ok := v.(string)` on a leaf's value: the model's scalars carry their Go type name -/
+def anyString? (v : Any) : Option String := if v.ty == "string" then some v.text else none
+
 /-! ## numbers -/
 
 /-- `uint(i)` -/
